@@ -135,6 +135,7 @@ class SdeintHooks(Hooks):
         self.ctor_kwargs = []
         self.check_args = []
         self.apply_args = []
+        self.other_solver_calls = []
 
     def on_call(self, interp, callee, args, kwargs, node, fi):
         if isinstance(callee, Closure) and callee.fi is not None:
@@ -163,8 +164,14 @@ class SdeintHooks(Hooks):
         def integrate(it2, a2, k2, n2, f2):
             self.integrate_calls.append(tuple(a2))
             return (nf.sym("YS_OUT"), (nf.sym("EXTRA_OUT"),))
+        def other(it2, obj, name, node, fi2):
+            # any other solver method the entry point may call: opaque, recorded
+            def call(it3, a3, k3, n3, f3):
+                self.other_solver_calls.append((name, tuple(a3)))
+                return nf.fn(f"SOLVER.{name}", *[x for x in a3 if isinstance(x, (Rat, tuple))])
+            return Intrinsic(f"solver.{name}", call)
         return Obj("solver", attrs={"init_extra_solver_state": Intrinsic("init", init),
-                                    "integrate": Intrinsic("integrate", integrate)})
+                                    "integrate": Intrinsic("integrate", integrate)}, getattr_hook=other)
 
     def external_call(self, interp, dotted, args, kwargs, node, fi):
         if dotted.endswith("_SdeintAdjointMethod.apply"):
@@ -202,12 +209,17 @@ def r13_2(ctx):
     E = (nf.sym("E_USER"),)
     out, hooks, fi = eval_sdeint(model, E)
     rep.analysed(fi)
-    ok = len(hooks.integrate_calls) == 1 and hooks.integrate_calls[0][2] is E and not hooks.init_calls \
-        and nf.equal(hooks.integrate_calls[0][0], nf.sym("y0"))
-    rep.check(ok, "R13.2", astq.loc(fi), f"{fi.key}::R13.2::resume",
-              f"with extra_solver_state given, integrate is called with `{hooks.integrate_calls}` (init calls: "
-              f"{len(hooks.init_calls)}): the supplied state must be passed verbatim and not re-initialised",
-              "extra_solver_state passed verbatim")
+    for extra_flag in (True, False):
+        out_r, hooks_r, _ = eval_sdeint(model, E, extra=extra_flag)
+        ic = hooks_r.integrate_calls
+        ok = len(ic) == 1 and isinstance(ic[0][2], (tuple, list)) and nf.equal(tuple(ic[0][2]), E) \
+            and not hooks_r.init_calls and nf.equal(ic[0][0], nf.sym("y0"))
+        rep.check(ok, "R13.2", astq.loc(fi), f"{fi.key}::R13.2::resume::extra={extra_flag}",
+                  f"with extra_solver_state given (extra={extra_flag}), integrate is called with state "
+                  f"`{[str(x) for x in ic[0][2]] if ic and isinstance(ic[0][2], (tuple, list)) else (ic[0][2] if ic else None)}` "
+                  f"(init calls: {len(hooks_r.init_calls)}, other solver calls: {[c[0] for c in hooks_r.other_solver_calls]}): the "
+                  f"supplied state must reach the stepping loop unchanged, or a restarted run differs from the one-shot run",
+                  "extra_solver_state reaches integrate unchanged")
     ok = isinstance(out, tuple) and len(out) == 2 and nf.equal(out[0], nf.sym("YS_OUT")) and \
         isinstance(out[1], tuple) and len(out[1]) == 1 and nf.equal(out[1][0], nf.sym("EXTRA_OUT"))
     rep.check(ok, "R13.2", astq.loc(fi), f"{fi.key}::R13.2::returns-extra",
